@@ -5,77 +5,282 @@ import ast
 
 import sympy as sp
 
-from ..core import src, AnalysisError, parent
+from ..core import src, AnalysisError, parent, same_expr
 from .. import units as U
 from ..symx import alg_equal
 from .. import ispace as I
 from .C05 import solver as solver_index_spaces, driver_typestate, orders
-from .C14 import per_mode
+from .C14 import per_mode, ViewedCheck, flat_view, flat_function, env_of, mode_loop, _stmt_of, _block_of, _own_exprs
 
 QN = "QuasiNeutralitySolver"
+DES = "DiffEqSolver"
+DF = "DensityFinder"
+
+# libraries whose fft / ifft are the unnormalised forward transform and its 1/n inverse, in the mode order of np.fft.fftfreq
+FFT_MODULES = {"scipy.fftpack", "scipy.fft", "numpy.fft"}
+
+
+def _imports(tree):
+    """local name -> dotted origin, for module-level imports"""
+    out = {}
+    for n in tree.body:
+        if isinstance(n, ast.ImportFrom) and n.module and not n.level:
+            for a in n.names:
+                out[a.asname or a.name] = f"{n.module}.{a.name}"
+        elif isinstance(n, ast.Import):
+            for a in n.names:
+                if a.asname:
+                    out[a.asname] = a.name
+                else:
+                    out[a.name.split(".")[0]] = a.name.split(".")[0]
+    return out
+
+
+def _origin(func, imports):
+    """dotted origin of a called name / attribute chain, e.g. scipy.fftpack.fft"""
+    parts = []
+    e = func
+    while isinstance(e, ast.Attribute):
+        parts.append(e.attr)
+        e = e.value
+    if not isinstance(e, ast.Name):
+        return None
+    root = imports.get(e.id)
+    if root is None:
+        return None
+    if root == "np":
+        root = "numpy"
+    return ".".join([root] + parts[::-1])
+
+
+def _transform_kind(call, imports):
+    """'fft' / 'ifft' / another function of a transform library / None"""
+    o = _origin(call.func, imports)
+    if o is None:
+        return None
+    modname, _, fname = o.rpartition(".")
+    if modname in FFT_MODULES:
+        return fname
+    return None
+
+
+def grid_storage_is_contiguous(chk):
+    """Grid.getAllData() returns self._f and every self._f is `np.split(<1-D buffer>, [n])[0].reshape(shape)`: a C-contiguous view,
+    whose reshape to (-1, last extent) is again a view made of the lines along the last axis"""
+    try:
+        mod = chk.mod(U.GRID)
+        ga = chk.func(U.GRID, "Grid.getAllData")
+    except AnalysisError:
+        return False
+    rets = [n for n in ast.walk(ga) if isinstance(n, ast.Return)]
+    if len(rets) != 1 or src(rets[0].value) != "self._f":
+        return False
+    defs = [n for n in ast.walk(mod.tree) if isinstance(n, ast.Assign) and any(src(t) == "self._f" for t in n.targets)]
+    if not defs:
+        return False
+    for d in defs:
+        v = d.value
+        if not (isinstance(v, ast.Call) and isinstance(v.func, ast.Attribute) and v.func.attr == "reshape"):
+            return False
+        b = v.func.value
+        if not (isinstance(b, ast.Subscript) and isinstance(b.slice, ast.Constant) and b.slice.value == 0 and isinstance(b.value, ast.Call)
+                and src(b.value.func) in ("np.split", "numpy.split")):
+            return False
+    return True
 
 
 def transforms(chk):
     mod = chk.mod(U.POISSON)
-    imp = [n for n in mod.tree.body if isinstance(n, ast.ImportFrom) and n.module and n.module.endswith("fftpack")]
-    names = {a.asname or a.name: (n.module, a.name) for n in imp for a in n.names}
-    okimp = names.get("fft", ("", ""))[1] == "fft" and names.get("ifft", ("", ""))[1] == "ifft" and \
-        names["fft"][0] == names["ifft"][0]
-    chk.ob("F5-transform-pair", imp[0] if imp else mod.tree, "from scipy.fftpack import fft, ifft", okimp,
-           "forward and inverse transform are the matching pair of one library" if okimp else
-           f"fft/ifft are not the matching pair of one module: {names}", file=U.POISSON, func="<module>")
+    imports = _imports(mod.tree)
+    results = []
     for m, f, arg in (("getModes", "fft", "rho"), ("findPotential", "ifft", "phi")):
-        fn = chk.func(U.POISSON, f"DiffEqSolver.{m}")
-        calls = [c for c in ast.walk(fn) if isinstance(c, ast.Call) and isinstance(c.func, ast.Name) and c.func.id in ("fft", "ifft")]
+        q = f"{DES}.{m}"
+        fn = flat_view(chk, U.POISSON, DES, m)
+        env = env_of(chk, fn)
+        inv = "ifft" if f == "fft" else "fft"
+        calls = [(c, _transform_kind(c, imports)) for c in ast.walk(fn) if isinstance(c, ast.Call)]
+        calls = [(c, k) for c, k in calls if k is not None]
+        results.append((m, calls))
         amb = I.ambient_from_asserts(fn)
         o = amb.get(arg)
-        ok = len(calls) == 1 and calls[0].func.id == f
-        # transform along theta = last axis of the asserted layout, slice by slice over the two leading axes
-        t = src(fn).replace(" ", "").replace("\n", "")
-        ok_axis = o is not None and o[-1] == 1 and f"vec={arg}.get1DSlice(i,j)" in t and f"mode={f}(vec" in t and "vec[:]=mode" in t \
-            and f"fori,_in{arg}.getCoords(0)" in t and f"forj,_in{arg}.getCoords(1)" in t
-        extra = [k.arg for c in calls for k in c.keywords if k.arg not in ("overwrite_x",)]
-        chk.ob("F5-transform-pair", fn, f"{m}: {f} along theta, in place", ok and ok_axis and not extra,
-               f"every (r,z) line of the asserted layout {o} is replaced by its {f} along theta (last axis), standard mode order"
-               if ok and ok_axis and not extra else f"transform call ok={ok}, axis/in-place ok={ok_axis}, extra options={extra}",
-               file=U.POISSON, func=f"DiffEqSolver.{m}")
+        ok, bad, why = None, None, ""
+        if len(calls) == 1:
+            c, kind = calls[0]
+            st = _stmt_of(c)
+            extra, unknown_opts = [], []
+            for k in c.keywords:
+                if k.arg == "overwrite_x":
+                    continue
+                if k.arg == "axis" and src(k.value) in ("-1", "2"):
+                    continue
+                if k.arg == "norm" and src(k.value) in ("None", "'backward'"):
+                    continue
+                if k.arg == "axis" and isinstance(k.value, ast.Constant) or k.arg == "norm" and isinstance(k.value, ast.Constant):
+                    extra.append(f"{k.arg}={src(k.value)}")
+                else:
+                    unknown_opts.append(f"{k.arg}={src(k.value)}")
+            if len(c.args) > 1:
+                unknown_opts += [src(a) for a in c.args[1:]]
+            # where the transformed line comes from and where the result goes
+            line = env.x(c.args[0], use=st) if c.args else None
+            store = None
+            if isinstance(st, ast.Assign) and isinstance(st.targets[0], ast.Subscript) and st.value is c:
+                store = st
+            elif isinstance(st, ast.Assign) and isinstance(st.targets[0], ast.Name) and st.value is c:
+                nm = st.targets[0].id
+                blk, k0 = _block_of(st)
+                for s2 in (blk or [])[k0 + 1:]:
+                    if isinstance(s2, ast.Assign) and isinstance(s2.targets[0], ast.Subscript) and src(s2.value) == nm:
+                        store = s2
+                        break
+            loops = []
+            p_ = parent(st)
+            while p_ is not None and p_ is not fn:
+                if isinstance(p_, ast.For):
+                    loops.append(p_)
+                p_ = parent(p_)
+            shape = None          # how the lines are enumerated
+            if store is not None and line is not None:
+                tgt = env.x(store.targets[0].value, use=store)
+                whole = src(store.targets[0].slice).replace(" ", "") in (":", "...")
+                if whole and len(loops) == 2:
+                    its = [env.x(l_.iter) for l_ in loops[::-1]]
+                    vars_ = [src(l_.target.elts[0]) if isinstance(l_.target, ast.Tuple) and l_.target.elts else None for l_ in loops[::-1]]
+                    if all(v is not None for v in vars_) and same_expr(its[0], f"{arg}.getCoords(0)") and same_expr(its[1], f"{arg}.getCoords(1)"):
+                        want = f"{arg}.get1DSlice({vars_[0]}, {vars_[1]})"
+                        if same_expr(line, want) and same_expr(tgt, want):
+                            shape = "slices"
+                        elif same_expr(line, f"{arg}.get1DSlice({vars_[1]}, {vars_[0]})") or same_expr(tgt, f"{arg}.get1DSlice({vars_[1]}, {vars_[0]})"):
+                            shape = "swapped"
+                        elif src(line) != src(tgt) and isinstance(line, ast.Call) and isinstance(tgt, ast.Call) and \
+                                src(line.func) == src(tgt.func) == f"{arg}.get1DSlice":
+                            shape = "mismatch"
+                elif whole and len(loops) == 1 and isinstance(loops[0].target, ast.Name):
+                    v_ = loops[0].target.id
+                    it = env.x(loops[0].iter)
+                    if src(line) == v_ and src(tgt) == v_ and \
+                            same_expr(it, f"{arg}.getAllData().reshape(-1, {arg}.getAllData().shape[-1])"):
+                        shape = "rows" if grid_storage_is_contiguous(chk) else "rows?"
+            if kind == inv:
+                bad = (f"{m} applies `{kind}` where the pipeline needs `{f}`: the forward and inverse transforms are exchanged, so the modes "
+                       f"are scaled by 1/n and conjugated (mode m and -m exchanged) with respect to the numbering of self._mVals")
+            elif kind != f:
+                bad = (f"{m} applies `{kind}`, which is not the complex transform `{f}`: the output is not in the mode order of np.fft.fftfreq "
+                       "that the per-mode tables use")
+            elif extra:
+                bad = (f"`{f}` is called with the options {extra}: the plain transform (default normalisation, along the line) is what makes "
+                       "ifft(fft(x)) = x and puts mode m of np.fft.fftfreq at position m of the output")
+            elif o is not None and o[-1] != 1 and shape in ("slices", "rows"):
+                bad = (f"the asserted layout {o} does not have theta as its last (contiguous) axis: the lines that are transformed are not "
+                       "poloidal lines")
+            elif shape == "swapped":
+                bad = f"the line is taken with the (r, z) indices exchanged (`{src(line)}`)"
+            elif shape == "mismatch":
+                bad = f"the transform of `{src(line)}` is written to a different line `{src(tgt)}`"
+            elif store is None and isinstance(st, (ast.Expr, ast.Assign)) and (isinstance(st, ast.Expr) or (
+                    isinstance(st.targets[0], ast.Name) and not any(isinstance(n, ast.Name) and n.id == st.targets[0].id and
+                                                                    isinstance(n.ctx, ast.Load) for n in ast.walk(fn)))):
+                bad = (f"the result of `{f}` is never written back to the grid (overwrite_x only permits, it does not guarantee, "
+                       "in-place operation): the grid keeps the untransformed data")
+            elif shape in ("slices", "rows") and o is not None and o[-1] == 1 and not unknown_opts:
+                ok = True
+                why = (f"every (r,z) line of the asserted layout {o} is replaced by its {f} along theta (last axis), standard mode order" +
+                       (" - lines taken as the rows of the contiguous local array" if shape == "rows" else ""))
+        chk.pat("F5-transform-pair", fn, f"{m}: {f} along theta, in place", ok, why, bad, file=U.POISSON, func=q)
+    # the names the calls go through
+    resolved = all(cs for _, cs in results)
+    wrong = {nm: o for nm, o in imports.items() if nm in ("fft", "ifft") and o.rpartition(".")[0] in FFT_MODULES and o.rpartition(".")[2] != nm}
+    bad = None
+    if wrong:
+        bad = f"the name(s) {sorted(wrong)} are bound to a different transform by the imports: {wrong}"
+    imp = [n for n in mod.tree.body if isinstance(n, ast.ImportFrom) and n.module in FFT_MODULES]
+    chk.pat("F5-transform-pair", imp[0] if imp else mod.tree, "fft / ifft of a standard transform library", resolved and not wrong,
+            "the transforms called are fft / ifft of a standard library under their own names: the unnormalised forward transform and "
+            "its 1/n inverse", bad, file=U.POISSON, func="<module>")
+
+
+def _numeric_modes(text):
+    """True / (False, diagnosis) / None: does the expression over nTheta evaluate to np.fft.fftfreq(n, 1/n) for n = 1..16?"""
+    try:
+        import numpy as np
+    except Exception:
+        return None
+    allowed_funcs = {"np.fft.fftfreq", "numpy.fft.fftfreq", "np.arange", "numpy.arange", "np.round", "np.rint", "numpy.round", "numpy.rint",
+                     "float", "int"}
+    try:
+        tree = ast.parse(text, mode="eval")
+    except SyntaxError:
+        return None
+    for n in ast.walk(tree):
+        if isinstance(n, ast.Call):
+            f = src(n.func)
+            if not (f in allowed_funcs or (isinstance(n.func, ast.Attribute) and n.func.attr == "astype")):
+                return None
+        elif isinstance(n, ast.Name) and n.id not in ("np", "numpy", "nTheta", "float", "int", "complex"):
+            return None
+        elif isinstance(n, (ast.Subscript, ast.Lambda, ast.ListComp, ast.GeneratorExp, ast.DictComp, ast.SetComp, ast.NamedExpr, ast.Starred)):
+            return None
+    try:
+        code = compile(tree, "<modes>", "eval")
+        for n in range(1, 17):
+            got = np.asarray(eval(code, {"__builtins__": {}}, {"np": np, "numpy": np, "nTheta": n, "float": float, "int": int, "complex": complex}))
+            want = np.fft.fftfreq(n, 1 / n)
+            if got.shape != want.shape or not np.allclose(got, want, rtol=0, atol=1e-9):
+                return False, (f"for nTheta={n} the mode numbers are {np.round(got, 3).tolist() if got.size <= 8 else str(np.round(got, 3).tolist())[:60]} "
+                               f"instead of the transform's numbering {want.tolist() if want.size <= 8 else str(want.tolist())[:60]}")
+        return True
+    except Exception:
+        return None
 
 
 def mode_numbers(chk):
     """mode numbers in the order of the transform's output"""
-    fn = chk.func(U.POISSON, "DiffEqSolver.__init__")
+    fn = flat_view(chk, U.POISSON, DES, "__init__")
+    env = env_of(chk, fn)
+    q = f"{DES}.__init__"
     defs = [n for n in fn.body if isinstance(n, ast.Assign) and src(n.targets[0]) == "self._mVals"]
     if len(defs) != 1:
         raise AnalysisError("C15: definition of self._mVals not found")
     v = defs[0].value
-    s = src(v).replace(" ", "")
-    if s in ("np.fft.fftfreq(nTheta,1/nTheta)", "np.fft.fftfreq(nTheta,1.0/nTheta)", "np.fft.fftfreq(nTheta)*nTheta",
-             "nTheta*np.fft.fftfreq(nTheta)", "np.fft.fftfreq(nTheta,d=1/nTheta)"):
-        # nothing between the definition and the squaring may modify it
-        mods = [n for n in fn.body if n is not defs[0] and any(isinstance(t, (ast.Subscript,)) and src(t.value) == "self._mVals"
-                                                                 for t in (getattr(n, "targets", []) or []) + ([n.target] if isinstance(n, ast.AugAssign) else []))]
-        chk.ob("F5-mode-numbers", defs[0], src(defs[0]), not mods,
-               "mode numbers are the integer frequencies in the transform's own output order (0..,-..-1), for even and odd counts"
-               if not mods else "mode numbers are modified in place after fftfreq", file=U.POISSON, func="DiffEqSolver.__init__")
-        return
-    # hand-built alternative: arange(n) with the upper part shifted by -n; the split point must be ceil(n/2)
-    ok = None
-    why = f"mode numbers are built by `{src(v)}`: not a recognised construction"
-    base, bv = "self._mVals", v
+    # in-place modifications of the table (other than the squaring of the whole table) or of the local it is built from
+    base = "self._mVals"
     inner = v
     if isinstance(inner, ast.Call) and isinstance(inner.func, ast.Attribute) and inner.func.attr == "astype":
         inner = inner.func.value
+    bv = v
     if isinstance(inner, ast.Name):
         ld = [n for n in fn.body if isinstance(n, ast.Assign) and src(n.targets[0]) == inner.id]
         if len(ld) == 1:
             base, bv = inner.id, ld[0].value
-    if src(bv).replace(" ", "").startswith("np.arange(nTheta"):
+    mods = [n for n in ast.walk(fn) if isinstance(n, (ast.Assign, ast.AugAssign)) and any(
+        isinstance(t, ast.Subscript) and src(t.value) in ("self._mVals", base)
+        for t in (n.targets if isinstance(n, ast.Assign) else [n.target]))]
+    if not mods:
+        ex = env.x(v, use=defs[0])
+        res = _numeric_modes(src(ex)) if not env.amb else None
+        if res is True:
+            chk.ob("F5-mode-numbers", defs[0], src(defs[0]), True,
+                   "mode numbers are the integer frequencies in the transform's own output order (0..,-..-1), for even and odd counts "
+                   "(evaluated for nTheta = 1..16)", file=U.POISSON, func=q)
+            return
+        if isinstance(res, tuple):
+            chk.ob("F5-mode-numbers", defs[0], src(defs[0]), False,
+                   f"`{src(ex)[:80]}` is not the numbering of the transform's output: {res[1]}; the per-mode operators and Neumann lists "
+                   "are attached to the wrong modes", file=U.POISSON, func=q)
+            return
+        chk.ob("F5-mode-numbers", defs[0], src(defs[0]), None, f"mode numbers are built by `{src(ex)[:80]}`: not a recognised construction",
+               file=U.POISSON, func=q)
+        return
+    # hand-built alternative: arange(n) with the upper part shifted by -n; the split point must be ceil(n/2)
+    ok = None
+    why = f"mode numbers are built by `{src(v)}` and modified in place: not a recognised construction"
+    if src(bv).replace(" ", "").startswith("np.arange(nTheta") and len(mods) == 1:
         shifts = [n for n in fn.body if isinstance(n, ast.AugAssign) and isinstance(n.target, ast.Subscript)
                   and src(n.target.value) == base and isinstance(n.op, ast.Sub) and src(n.value) == "nTheta"]
         lower = None
-        if len(shifts) == 1:
+        if len(shifts) == 1 and shifts[0] is mods[0]:
             sl = shifts[0].target.slice
-            if isinstance(sl, ast.Slice) and sl.upper is None and sl.lower is not None:
+            if isinstance(sl, ast.Slice) and sl.upper is None and sl.lower is not None and sl.step is None:
                 lower = src(sl.lower)
             elif isinstance(sl, ast.Compare) and len(sl.ops) == 1 and src(sl.left) == base:
                 # arange values equal their positions: a mask `base > T` shifts positions T+1.., `base >= T` positions T..
@@ -97,48 +302,103 @@ def mode_numbers(chk):
                        "and/or +m and -m are confused")
             except Exception as e:
                 why = f"split point `{lower}` not evaluable: {e}"
-    chk.ob("F5-mode-numbers", defs[0], src(defs[0]), ok, why, file=U.POISSON, func="DiffEqSolver.__init__")
+    chk.ob("F5-mode-numbers", defs[0], src(defs[0]), ok, why, file=U.POISSON, func=q)
 
 
-def lam(e):
+def lam(e, env=None, fn=None, at=None):
     """lambda r: <expr>  ->  sympy expression over r and uninterpreted n0(r), Te(r), g(r)=n0'/n0, B"""
-    if not isinstance(e, ast.Lambda):
+    if isinstance(e, ast.Name) and env is not None:
+        r_ = env.reaching(e.id, at) if at is not None else ("opaque",)
+        if r_[0] == "def" and isinstance(r_[2], ast.Lambda):
+            e = r_[2]
+        elif fn is not None:
+            fd = [n for n in ast.walk(fn) if isinstance(n, ast.FunctionDef) and n is not fn and n.name == e.id]
+            if len(fd) == 1 and len(fd[0].body) == 1 and isinstance(fd[0].body[0], ast.Return) and len(fd[0].args.args) == 1:
+                e = ast.Lambda(args=fd[0].args, body=fd[0].body[0].value)
+    if not isinstance(e, ast.Lambda) or len(e.args.args) != 1:
         raise KeyError(src(e))
+    arg = e.args.args[0].arg
     r = sp.Symbol("r", positive=True)
     fns = {"n0": sp.Function("n0"), "Te": sp.Function("Te"), "n0derivNormalised": sp.Function("g")}
     Bs = sp.Symbol("B")
 
     def cv(x):
         if isinstance(x, ast.Name):
-            if x.id == "r":
+            if x.id == arg:
                 return r
             if x.id == "B":
                 return Bs
             raise KeyError(x.id)
-        if isinstance(x, ast.Constant):
+        if isinstance(x, ast.Constant) and isinstance(x.value, (int, float)) and not isinstance(x.value, bool):
             return sp.nsimplify(x.value)
-        if isinstance(x, ast.BinOp):
+        if isinstance(x, ast.BinOp) and type(x.op) in (ast.Add, ast.Sub, ast.Mult, ast.Div, ast.Pow):
             a, b = cv(x.left), cv(x.right)
             return {ast.Add: a + b, ast.Sub: a - b, ast.Mult: a * b, ast.Div: a / b, ast.Pow: a ** b}[type(x.op)]
         if isinstance(x, ast.UnaryOp) and isinstance(x.op, ast.USub):
             return -cv(x.operand)
-        if isinstance(x, ast.Call) and isinstance(x.func, ast.Name) and x.func.id in fns and len(x.args) == 1:
+        if isinstance(x, ast.UnaryOp) and isinstance(x.op, ast.UAdd):
+            return cv(x.operand)
+        if isinstance(x, ast.Call) and isinstance(x.func, ast.Name) and x.func.id in fns and len(x.args) == 1 and not x.keywords:
             return fns[x.func.id](cv(x.args[0]))
         raise KeyError(src(x))
     return cv(e.body), r, fns, Bs
 
 
+def electron_branch(node, stop=None):
+    """'kinetic' / 'adiabatic': the branch of the `adiabaticElectrons` test that contains the node; 'both' when no such test
+    encloses it; None when the test is not recognised"""
+    cur, p = node, parent(node)
+    while p is not None and p is not stop:
+        if isinstance(p, ast.If):
+            t = src(p.test).replace("(", "").replace(")", "").replace(" ", "")
+            pol = {"notadiabaticElectrons": False, "adiabaticElectrons": True, "adiabaticElectrons==False": False,
+                   "adiabaticElectronsisFalse": False, "adiabaticElectrons==True": True, "adiabaticElectronsisTrue": True,
+                   "adiabaticElectronsisnotTrue": False, "adiabaticElectrons!=True": False}.get(t)
+            if pol is not None:
+                in_body = any(cur is x for x in p.body)
+                return "adiabatic" if pol == in_body else "kinetic"
+            if "adiabaticElectrons" in t:
+                return None
+        cur, p = p, parent(p)
+    return "both"
+
+
+def chi_values(node, stop):
+    """the values of chi in {0, 1} under which the statement runs, from the enclosing tests on chi; None when a test is not recognised"""
+    vals = {0, 1}
+    cur, p = node, parent(node)
+    while p is not None and p is not stop:
+        if isinstance(p, ast.If) and any(isinstance(x, ast.Name) and x.id == "chi" for x in ast.walk(p.test)):
+            t = src(p.test).replace("(", "").replace(")", "").replace(" ", "")
+            in_body = any(cur is x for x in p.body)
+            sel = None
+            for v_ in (0, 1):
+                if t in (f"chi=={v_}", f"{v_}==chi"):
+                    sel = {v_} if in_body else {0, 1} - {v_}
+                elif t in (f"chi!={v_}", f"{v_}!=chi"):
+                    sel = {0, 1} - {v_} if in_body else {v_}
+            if t in ("chiin0,1", "chiin[0,1]", "chiin{0,1}") and in_body:
+                sel = {0, 1}
+            elif t in ("chinotin0,1", "chinotin[0,1]", "chinotin{0,1}") and not in_body:
+                sel = {0, 1}
+            if sel is None:
+                return None
+            vals &= sel
+        cur, p = p, parent(p)
+    return vals
+
+
 def m0_operator(chk):
     """the m=0 operator of the quasi-neutrality solver is the assembled operator, minus the adiabatic block for chi=1"""
     from .C14 import operator_blocks, _sym, BLOCKS
-    fn = chk.func(U.POISSON, f"{QN}.__init__")
+    fn = flat_view(chk, U.POISSON, QN, "__init__")
+    env = env_of(chk, fn)
     stiff = operator_blocks(chk)
     defs = [n for n in ast.walk(fn) if isinstance(n, ast.Assign) and src(n.targets[0]) == "self._stiffness0"]
     if stiff is None or not defs:
         chk.ob("F5-m0-convention", fn, "chi -> m=0 operator", None, "definition of the theta-independent operator / of self._stiffness0 not found",
                file=U.POISSON, func=f"{QN}.__init__")
         return
-    kinetic = [n for n in fn.body if isinstance(n, ast.If) and src(n.test).replace("(", "").replace(")", "").replace(" ", "") == "notadiabaticElectrons"]
 
     def vec(e, chi_val):
         table = {}
@@ -164,169 +424,426 @@ def m0_operator(chk):
         return {k: v for k, v in out.items() if v != 0}
 
     want = {0: dict(stiff), 1: {k: v for k, v in stiff.items() if k != "self._PhiPsi"}}
+    CASES = {("kinetic", None): ("kinetic electrons", dict(stiff)), ("adiabatic", 0): ("chi=0", want[0]), ("adiabatic", 1): ("chi=1", want[1])}
+    # the configurations each assignment runs under; the last assignment (in program order) of a configuration is its operator
+    all_known = True
+    last = {}
+    for d in sorted(defs, key=lambda n: env.order.get(id(n), 0)):
+        br = electron_branch(d, fn)
+        vals = chi_values(d, fn)
+        if br is None or vals is None:
+            all_known = False
+            chk.ob("F5-m0-convention", d, f"m=0 operator: {src(d.value)[:60]}", None,
+                   "the assignment is guarded by a test on adiabaticElectrons / chi that is not recognised", file=U.POISSON,
+                   func=f"{QN}.__init__")
+            continue
+        for case in CASES:
+            if (br == "both" or br == case[0]) and (case[1] is None or case[1] in vals):
+                last[case] = d
     covered = set()
-    for d in defs:
-        in_kinetic = any(any(d is x for x in ast.walk(st)) for k in kinetic for st in k.body)
-        # chi values under which this assignment runs
-        g = parent(d)
-        vals = None
-        if isinstance(g, ast.If) and any(d is x for x in g.body):
-            t = src(g.test).replace("(", "").replace(")", "").replace(" ", "")
-            if t in ("chi==0", "chi==1"):
-                vals = [int(t[-1])]
-            elif t in ("0==chi", "1==chi"):
-                vals = [int(t[0])]
-        if in_kinetic:
-            cases = [("kinetic electrons", None, dict(stiff))]
-        else:
-            cases = [(f"chi={v}", v, want[v]) for v in (vals if vals is not None else [0, 1])]
-        for tag, cv, w in cases:
-            try:
-                got = vec(d.value, cv)
-                ok = got == w
-                covered.add(tag)
-                chk.ob("F5-m0-convention", d, f"m=0 operator for {tag}: {src(d.value)[:60]}", ok,
-                       ("the full theta-independent operator" if w == stiff else "the theta-independent operator without the adiabatic (C phi) "
-                        "block: the flux-surface average is subtracted") if ok else
-                       f"for {tag} the m=0 operator is {got}; the theta-independent operator is {stiff} and the m=0 operator must be {w}",
-                       file=U.POISSON, func=f"{QN}.__init__")
-            except KeyError as e:
-                chk.ob("F5-m0-convention", d, f"m=0 operator for {tag}: {src(d.value)[:60]}", None,
-                       f"not a combination of the assembled blocks ({e})", file=U.POISSON, func=f"{QN}.__init__")
-    raises = any(isinstance(n, ast.Raise) and "chi" in src(n) for n in ast.walk(fn))
-    okc = {"chi=0", "chi=1", "kinetic electrons"} <= covered and raises and "self._PhiPsi" in stiff
-    chk.ob("F5-m0-convention", fn, "chi in {0, 1} and kinetic electrons all define the m=0 operator; other chi refused", okc,
-           f"cases covered: {sorted(covered)}; refusal of other chi: {raises}", file=U.POISSON, func=f"{QN}.__init__", nontrivial=False)
+    for case, d in last.items():
+        tag, w = CASES[case]
+        val = env.x(d.value, stop={"chi"}, use=d)
+        try:
+            got = vec(val, case[1])
+            ok = got == w
+            covered.add(tag)
+            chk.ob("F5-m0-convention", d, f"m=0 operator for {tag}: {src(d.value)[:60]}", ok if (ok or all_known) else None,
+                   ("the full theta-independent operator" if w == stiff else "the theta-independent operator without the adiabatic (C phi) "
+                    "block: the flux-surface average is subtracted") if ok else
+                   f"for {tag} the m=0 operator is {got}; the theta-independent operator is {stiff} and the m=0 operator must be {w}",
+                   file=U.POISSON, func=f"{QN}.__init__")
+        except KeyError as e:
+            chk.ob("F5-m0-convention", d, f"m=0 operator for {tag}: {src(d.value)[:60]}", None,
+                   f"not a combination of the assembled blocks ({e})", file=U.POISSON, func=f"{QN}.__init__")
+    raises = any(isinstance(n, ast.Raise) and "chi" in src(n) for n in ast.walk(fn)) or \
+        any(isinstance(n, ast.Assert) and "chi" in src(n.test) and ("0" in src(n.test) and "1" in src(n.test)) for n in ast.walk(fn))
+    need = {t_ for t_, _ in CASES.values()}
+    okc = need <= covered and raises and "self._PhiPsi" in stiff
+    bad = None
+    if not (need <= set(CASES[c_][0] for c_ in last)) and all_known:
+        bad = (f"self._stiffness0 is not defined for {sorted(need - set(CASES[c_][0] for c_ in last))}: the m=0 mode of that configuration "
+               "has no operator (attribute error at the first solve)")
+    chk.pat("F5-m0-convention", fn, "chi in {0, 1} and kinetic electrons all define the m=0 operator; other chi refused", okc,
+            f"cases covered: {sorted(covered)}; refusal of other chi: {raises}", bad, file=U.POISSON, func=f"{QN}.__init__", nontrivial=False)
+
+
+def profile_calls(chk, fn):
+    """default profile functions receive the constants of the same name (role agreement with initialiser_funcs' signatures)"""
+    q = f"{QN}.__init__"
+    for name in ("n0", "Te", "n0deriv_normalised"):
+        try:
+            callee = chk.func(U.INITF, name)
+        except AnalysisError:
+            chk.ob("F5-qn-coefficients", fn, f"default profile init.{name}", None, f"initialiser function {name} not found", file=U.POISSON, func=q)
+            continue
+        formals = [a.arg for a in callee.args.args]
+        calls = [c for c in ast.walk(fn) if isinstance(c, ast.Call) and src(c.func) == f"init.{name}"]
+        if not calls:
+            chk.ob("F5-qn-coefficients", fn, f"default profile init.{name}", None, f"no call of init.{name} found", file=U.POISSON, func=q)
+            continue
+        for c in calls:
+            bound = dict(zip(formals, c.args))
+            for k in c.keywords:
+                if k.arg:
+                    bound[k.arg] = k.value
+            ok, wrong, unknown = True, [], []
+            for p_, a_ in bound.items():
+                if p_ == formals[0]:
+                    if not isinstance(a_, ast.Name):
+                        unknown.append(f"{p_} <- {src(a_)}")
+                    continue
+                if isinstance(a_, ast.Attribute) and src(a_.value) == "constants":
+                    if a_.attr.lower() != p_.lower():
+                        wrong.append(f"parameter `{p_}` receives constants.{a_.attr}")
+                else:
+                    unknown.append(f"{p_} <- {src(a_)}")
+            if len(bound) != len(formals):
+                unknown.append("not every parameter is bound")
+            res = False if wrong else (None if unknown else True)
+            chk.ob("F5-qn-coefficients", c, f"default profile {src(c)[:70]}", res,
+                   "the profile function receives the constants of the same name as its parameters" if res else
+                   ("; ".join(wrong) + ": the default profile is evaluated with the wrong physical constant" if wrong else
+                    "arguments not of the form constants.<name>: " + "; ".join(unknown)), file=U.POISSON, func=q)
+
+
+DES_INIT_PARAMS = ["self", "degree", "rspline", "nr", "nTheta", "lNeumannIdx", "uNeumannIdx", "ddrFactor", "drFactor", "rFactor",
+                   "ddThetaFactor", "rhoFactor"]
+
+
+def _literal_set(e):
+    try:
+        v = ast.literal_eval(src(e))
+    except Exception:
+        return None
+    if isinstance(v, (list, tuple, set)) and all(isinstance(x, (int, float)) and not isinstance(x, bool) for x in v):
+        return set(v)
+    return None
 
 
 def qn_coefficients(chk):
-    fn = chk.func(U.POISSON, f"{QN}.__init__")
-    calls = [c for c in ast.walk(fn) if isinstance(c, ast.Call) and src(c.func) == "DiffEqSolver.__init__"]
-    if len(calls) != 2:
-        raise AnalysisError("C15: expected two DiffEqSolver.__init__ calls in QuasiNeutralitySolver.__init__")
+    fn = flat_view(chk, U.POISSON, QN, "__init__")
+    env = env_of(chk, fn)
+    q = f"{QN}.__init__"
+    try:
+        formals = [a.arg for a in chk.func(U.POISSON, f"{DES}.__init__").args.args]
+    except AnalysisError:
+        formals = DES_INIT_PARAMS
+    calls = [c for c in ast.walk(fn) if isinstance(c, ast.Call) and src(c.func) == f"{DES}.__init__"]
+    calls += [c for c in ast.walk(fn) if isinstance(c, ast.Call) and src(c.func).replace(" ", "") in ("super().__init__", f"super({QN},self).__init__")]
+    if len(calls) not in (1, 2):
+        raise AnalysisError("C15: expected the DiffEqSolver.__init__ call(s) in QuasiNeutralitySolver.__init__")
+    r = sp.Symbol("r", positive=True)
+    gfun, n0f, Tef, Bs = sp.Function("g"), sp.Function("n0"), sp.Function("Te"), sp.Symbol("B")
     for c in calls:
-        g = parent(c)
-        while g is not None and not isinstance(g, ast.If):
-            g = parent(g)
-        adiabatic = not (isinstance(g, ast.If) and src(g.test).replace("(", "").replace(")", "") == "not adiabaticElectrons" and
-                         any(c in ast.walk(s) for s in g.body))
-        kw = {k.arg: k.value for k in c.keywords}
-        tag = "adiabatic electrons" if adiabatic else "kinetic electrons"
-        r = sp.Symbol("r", positive=True)
-        gfun, n0f, Tef, Bs = sp.Function("g"), sp.Function("n0"), sp.Function("Te"), sp.Symbol("B")
+        st = _stmt_of(c)
+        br = electron_branch(c, fn)
+        if br is None or (br == "both" and len(calls) == 2):
+            chk.ob("F5-qn-coefficients", c, "electron model of this DiffEqSolver.__init__ call", None,
+                   "the call is not inside a recognised branch of the adiabaticElectrons test", file=U.POISSON, func=q)
+            continue
+        explicit_self = src(c.func) == f"{DES}.__init__"
+        fm = formals if explicit_self else formals[1:]
+        if any(isinstance(a, ast.Starred) for a in c.args) or any(k.arg is None for k in c.keywords):
+            chk.ob("F5-qn-coefficients", c, "arguments of DiffEqSolver.__init__", None, "arguments passed through * / **: not resolved",
+                   file=U.POISSON, func=q)
+            continue
+        kw = dict(zip(fm, c.args))
+        kw.update({k.arg: k.value for k in c.keywords})
+        adiabatic = br == "adiabatic"
+        tag = "adiabatic electrons" if adiabatic else "kinetic electrons" if br == "kinetic" else "both electron models"
         spec = {"drFactor": -(1 / r + gfun(r)), "ddThetaFactor": -1 / r ** 2, "rhoFactor": Bs * Bs / n0f(r)}
+        defaults = {"ddrFactor": sp.Integer(-1), "rFactor": sp.Integer(0)}
         if adiabatic:
             spec["rFactor"] = Bs * Bs / Tef(r)
+        elif br == "kinetic":
+            spec["rFactor"] = sp.Integer(0)
+        spec["ddrFactor"] = sp.Integer(-1)
         for name, want in spec.items():
             if name not in kw:
-                chk.ob("F5-qn-coefficients", c, f"{name} [{tag}]", False, f"coefficient `{name}` is not passed", file=U.POISSON, func=f"{QN}.__init__")
+                if name in defaults:
+                    if alg_equal(defaults[name], want):
+                        if name == "rFactor":
+                            chk.ob("F5-qn-coefficients", c, f"{name} [{tag}]", True, "kinetic electrons: no adiabatic response term (default 0)",
+                                   file=U.POISSON, func=q)
+                        continue
+                chk.ob("F5-qn-coefficients", c, f"{name} [{tag}]", False,
+                       f"coefficient `{name}` is not passed: DiffEqSolver's default is used instead of {want}", file=U.POISSON, func=q)
                 continue
             try:
-                got, *_ = lam(kw[name])
+                got, *_ = lam(kw[name], env, fn, st)
                 ok = alg_equal(got, want)
                 chk.ob("F5-qn-coefficients", kw[name], f"{name} [{tag}]", ok, f"{name} = {want}" if ok else
-                       f"{name} is {got}, the quasi-neutrality equation needs {want}", file=U.POISSON, func=f"{QN}.__init__")
+                       f"{name} is {got}, the quasi-neutrality equation needs {want}" +
+                       (" (kinetic electrons have no adiabatic response term)" if name == "rFactor" and not adiabatic else ""),
+                       file=U.POISSON, func=q)
             except KeyError as e:
                 chk.ob("F5-qn-coefficients", kw[name], f"{name} [{tag}]", None, f"coefficient expression not recognised ({e})",
-                       file=U.POISSON, func=f"{QN}.__init__")
-        extra = set(kw) - set(spec) - {"lNeumannIdx"}
-        if not adiabatic and "rFactor" in kw:
-            chk.ob("F5-qn-coefficients", c, f"rFactor [{tag}]", False, "kinetic electrons have no adiabatic response term", file=U.POISSON, func=f"{QN}.__init__")
-        ln = kw.get("lNeumannIdx")
-        okn = ln is not None and src(ln).replace(" ", "") == "[0]" and "uNeumannIdx" not in kw
-        chk.ob("F5-qn-boundary", c, f"lNeumannIdx=[0] [{tag}]", okn, "only mode 0 has a Neumann condition, at the inner radius" if okn else
-               "boundary conditions of the quasi-neutrality solver changed", file=U.POISSON, func=f"{QN}.__init__")
-        # positional: degree, rspline, nr, nTheta
-        pos = [src(a).replace(" ", "") for a in c.args]
-        okpos = pos == ["self", "degree", "rspline", "eta_grid[0].size", "eta_grid[1].size"]
-        chk.ob("F5-qn-sizes", c, "DiffEqSolver.__init__(self, degree, rspline, nr, nTheta)", okpos,
-               "nr and nTheta are the global numbers of r and theta points" if okpos else f"positional arguments {pos}",
-               file=U.POISSON, func=f"{QN}.__init__")
-    # n0derivNormalised default and the n0deriv alternative
-    s = src(fn).replace(" ", "").replace("\n", "")
-    okd = "init.n0deriv_normalised(r,constants.kN0,constants.rp,constants.deltaRN0)" in s and \
-        "returninit.n0(r,constants.CN0,constants.kN0,constants.deltaRN0,constants.rp)" in s and \
-        "returninit.Te(r,constants.CTe,constants.kTe,constants.deltaRTe,constants.rp)" in s
-    chk.ob("F5-qn-coefficients", fn, "default profiles n0, Te, n0'/n0 from the constants", okd,
-           "default profile functions receive the constants of the same name in their documented order" if okd else
-           "default profile functions changed", file=U.POISSON, func=f"{QN}.__init__")
+                       file=U.POISSON, func=q)
+        ln, un = kw.get("lNeumannIdx"), kw.get("uNeumannIdx")
+        lset = _literal_set(env.x(ln, use=st)) if ln is not None else set()
+        uset = _literal_set(env.x(un, use=st)) if un is not None else set()
+        okn, bad = False, None
+        if lset is not None and uset is not None:
+            okn = lset == {0} and uset == set()
+            if not okn:
+                bad = (f"the quasi-neutrality solver is built with Neumann modes {sorted(lset)} at the inner and {sorted(uset)} at the outer "
+                       "boundary instead of mode 0 at the inner boundary only: the m=0 mode (or another mode) gets the wrong boundary condition")
+        chk.pat("F5-qn-boundary", c, f"lNeumannIdx=[0] [{tag}]", okn, "only mode 0 has a Neumann condition, at the inner radius", bad,
+                file=U.POISSON, func=q)
+        # sizes: nr, nTheta
+        sizes = {k_: (src(env.x(kw[k_], use=st)).replace(" ", "") if k_ in kw else None) for k_ in ("nr", "nTheta")}
+        okpos = sizes == {"nr": "eta_grid[0].size", "nTheta": "eta_grid[1].size"} and \
+            src(kw.get("degree", "")) == "degree" and src(kw.get("rspline", "")) == "rspline"
+        bad = None
+        if not okpos:
+            import re
+            for k_, dim in (("nr", 0), ("nTheta", 1)):
+                m_ = re.fullmatch(r"(?:eta_grid\[(\d)\]\.size|len\(eta_grid\[(\d)\]\)|eta_grid\[(\d)\]\.shape\[0\])", sizes[k_] or "")
+                if m_ and int(next(g for g in m_.groups() if g is not None)) != dim:
+                    bad = (f"`{k_}` receives `{sizes[k_]}`, the number of points of dimension {next(g for g in m_.groups() if g is not None)} "
+                           f"instead of dimension {dim}: the mode tables / evaluation buffers have the wrong length")
+            if bad is None and all(re.fullmatch(r"(?:eta_grid\[\d\]\.size|len\(eta_grid\[\d\]\)|eta_grid\[\d\]\.shape\[0\])", sizes[k_] or "")
+                                   for k_ in ("nr", "nTheta")) and src(kw.get("degree", "")) == "degree" and src(kw.get("rspline", "")) == "rspline":
+                okpos = True
+        chk.pat("F5-qn-sizes", c, "DiffEqSolver.__init__(self, degree, rspline, nr, nTheta)", okpos,
+                "nr and nTheta are the global numbers of r and theta points", bad, file=U.POISSON, func=q)
+    # default profiles n0, Te, n0'/n0 from the constants
+    profile_calls(chk, fn)
     m0_operator(chk)
-    se = chk.func(U.POISSON, f"{QN}.solveEquation")
-    t = src(se).replace(" ", "").replace("\n", "")
-    okm = "if(self._mVals[I]==0):stiffnessMatrix=self._stiffness0" in t.replace("ifself", "if(self").replace("==0:", "==0):") or \
-        "ifself._mVals[I]==0:stiffnessMatrix=self._stiffness0" in t
-    chk.ob("F5-m0-convention", se, "m=0 test uses the global mode index", okm,
-           "the m=0 operator is selected by the (squared) mode number of the global mode index" if okm else
-           "the m=0 selection no longer tests self._mVals[I] == 0", file=U.POISSON, func=f"{QN}.solveEquation")
+    m0_selection(chk)
+
+
+def m0_selection(chk):
+    """QuasiNeutralitySolver.solveEquation: the m=0 operator for the mode whose (squared) number is 0, the generic one otherwise"""
+    q = f"{QN}.solveEquation"
+    se, lp, li, gi = mode_loop(chk, QN, "solveEquation")
+    ok, bad = False, None
+    if lp is not None:
+        env = env_of(chk, se)
+        for n in ast.walk(lp):
+            if not isinstance(n, ast.If):
+                continue
+            t = env.x(n.test, use=n)
+            if not (isinstance(t, ast.Compare) and len(t.ops) == 1 and isinstance(t.ops[0], (ast.Eq, ast.NotEq))):
+                continue
+            sides = [src(t.left).replace(" ", ""), src(t.comparators[0]).replace(" ", "")]
+            if not ("0" in sides or "0.0" in sides):
+                continue
+            other = [s_ for s_ in sides if s_ not in ("0", "0.0")]
+            if len(other) != 1 or not other[0].startswith("self._mVals["):
+                continue
+            zero_branch, rest = (n.body, n.orelse) if isinstance(t.ops[0], ast.Eq) else (n.orelse, n.body)
+
+            def uses0(stmts):
+                out = []
+                for s_ in stmts:
+                    for x in ast.walk(s_):
+                        if isinstance(x, ast.stmt):
+                            for e_ in _own_exprs(x):
+                                out.append("self._stiffness0" in src(env.x(e_, use=x)))
+                return any(out)
+
+            def usesK(stmts):
+                out = []
+                for s_ in stmts:
+                    for x in ast.walk(s_):
+                        if isinstance(x, ast.stmt):
+                            for e_ in _own_exprs(x):
+                                out.append("self._k2PhiPsi" in src(env.x(e_, use=x)))
+                return any(out)
+            if other[0] != f"self._mVals[{gi}]":
+                bad = (f"the m=0 operator is selected by `{other[0]}`, not by the mode number of the global mode index `{gi}`: on a process "
+                       "whose block does not start at mode 0 the wrong mode gets the m=0 operator")
+            elif uses0(zero_branch) and not uses0(rest) and usesK(rest):
+                ok = True
+            elif uses0(rest) and not uses0(zero_branch) and usesK(zero_branch):
+                bad = ("the branches of the m=0 test are exchanged: the mode m=0 is solved with the generic operator and every other "
+                       "mode with the m=0 operator")
+    chk.pat("F5-m0-convention", lp if lp is not None else se, "m=0 test uses the global mode index", ok,
+            "the m=0 operator is selected by the (squared) mode number of the global mode index", bad, file=U.POISSON, func=q)
+
+
+def equilibrium_cancellation(chk):
+    """the perturbed density of the equilibrium is exactly zero: f and the tabulated f_eq go through one quadrature"""
+    q = f"{DF}.getPerturbedRho"
+    fn = flat_view(chk, U.POISSON, DF, "getPerturbedRho")
+    init = flat_view(chk, U.POISSON, DF, "__init__")
+    env, envi = env_of(chk, fn), env_of(chk, init)
+    try:
+        formals = [a.arg for a in chk.func(U.PTOOLS, "get_perturbed_rho").args.args]
+    except AnalysisError:
+        formals = ["rho", "feq", "grid", "quad_coeffs"]
+
+    def named(c, name):
+        return isinstance(c, ast.Call) and src(c.func).split(".")[-1] == name
+    calls = [c for c in ast.walk(fn) if named(c, "get_perturbed_rho")]
+    ok, bad = None, None
+    site = fn
+    if len(calls) == 1:
+        c = calls[0]
+        site = c
+        st = _stmt_of(c)
+        b = dict(zip(formals, c.args))
+        b.update({k.arg: k.value for k in c.keywords if k.arg})
+        if "feq" in b and "quad_coeffs" in b and "grid" in b:
+            feq = env.x(b["feq"], use=st)
+            w = env.x(b["quad_coeffs"], use=st)
+            base = feq
+            while isinstance(base, ast.Subscript):
+                base = base.value
+            tab = src(base)
+            fills = [x for x in ast.walk(init) if named(x, "feq_vector") and x.args and src(envi.x(x.args[0], use=_stmt_of(x))) == tab]
+            if tab.startswith("self.") and len(fills) == 1 and src(w) == "self._quad_coeffs":
+                fa = fills[0].args
+                pts = [src(envi.x(a, use=_stmt_of(fills[0]))).replace(" ", "") for a in fa[1:3]] if len(fa) >= 3 else []
+                if pts == ["eta_grid[0]", "eta_grid[3]"]:
+                    ok = True
+                elif len(pts) == 2 and all(p_.startswith("eta_grid[") and p_.endswith("]") for p_ in pts):
+                    bad = (f"the equilibrium table {tab} is tabulated on the coordinates {pts} instead of (eta_grid[0], eta_grid[3]) = (r, v): "
+                           "it is not f_eq at the points where f is integrated, so the perturbed density of the equilibrium is not zero")
+    elif not calls:
+        plain = [c for c in ast.walk(fn) if named(c, "get_rho")]
+        subs = [n for n in ast.walk(fn) if (isinstance(n, ast.AugAssign) and isinstance(n.op, ast.Sub)) or
+                (isinstance(n, ast.BinOp) and isinstance(n.op, ast.Sub))]
+        if plain:
+            site = plain[0]
+            if not subs:
+                bad = ("getPerturbedRho integrates f without subtracting the equilibrium: the density handed to the quasi-neutrality solve "
+                       "is the full density, the potential of the unperturbed equilibrium is not zero")
+            for sb in subs:
+                rhs = sb.value if isinstance(sb, ast.AugAssign) else sb.right
+                for a in [x for x in ast.walk(env.x(rhs, use=_stmt_of(sb))) if isinstance(x, ast.Attribute) and src(x.value) == "self"]:
+                    defs = [n for n in ast.walk(init) if isinstance(n, ast.Assign) and src(n.targets[0]) == src(a)]
+                    if not defs:
+                        continue
+                    dv = src(envi.x(defs[-1].value, use=defs[-1]))
+                    shown = src(defs[-1].value)
+                    if "_quad_coeffs" not in dv and "get_quadrature_coefficients" not in dv and not any(
+                            named(x, "get_rho") or named(x, "get_perturbed_rho") for x in ast.walk(defs[-1].value)):
+                        bad = (f"the equilibrium density subtracted in getPerturbedRho, `{src(a)}`, is computed in the constructor as "
+                               f"`{shown[:90]}` without the quadrature weights used for f: the velocity integral of the Maxwellian taken another "
+                               "way (closed form, other rule) differs from the quadrature of the tabulated f_eq by the quadrature error, so "
+                               "for f = f_eq the 'perturbed' density is minus that error instead of exactly zero; the quasi-neutrality solve "
+                               "then returns a spurious m=0 potential and the equilibrium is no longer a fixed point of the time step")
+    chk.pat("F5-equilibrium-cancellation", site, "getPerturbedRho: sum_l w_l (f - f_eq)(r_i, v_l) with one set of weights", ok,
+            "f and the equilibrium tabulated at the same (r, v) points are combined by one quadrature inside the kernel: the perturbed "
+            "density of the equilibrium is exactly zero", bad, file=U.POISSON, func=q)
 
 
 def spectral_typestate(chk):
     """pipeline order in the driver: rho real -> getModes -> solve -> findPotential -> phi real before it is used"""
-    fn = chk.func(U.DRIVER, "main")
+    fn = flat_function(chk, U.DRIVER, "main")
+    mod = chk.mod(U.DRIVER)
     uses_phi_real = {"gridStep", "collect", "writeH5Dataset"}
+    local_fns = {n.name: n for n in ast.walk(fn) if isinstance(n, ast.FunctionDef) and n is not fn}
+    for n in mod.tree.body:
+        if isinstance(n, ast.FunctionDef) and n is not fn:
+            local_fns.setdefault(n.name, n)
+    decided = ("real", "modes")
 
-    def walk(stmts, st):
+    def judge(state, want):
+        return (state == want) if state in decided else None
+
+    def walk(stmts, st, depth=0):
         for s in stmts:
+            if isinstance(s, (ast.FunctionDef, ast.AsyncFunctionDef, ast.ClassDef)):
+                continue
             if isinstance(s, ast.If):
                 a, b = dict(st), dict(st)
-                walk(s.body, a)
-                walk(s.orelse, b)
+                walk(s.body, a, depth)
+                walk(s.orelse, b, depth)
                 for k in st:
                     st[k] = a[k] if a[k] == b[k] else "mixed"
             elif isinstance(s, (ast.While, ast.For)):
                 before = dict(st)
-                walk(s.body, st)
+                walk(s.body, st, depth)
                 ok = before == st
+                if not ok and any(v not in decided for v in list(before.values()) + list(st.values())):
+                    ok = None
                 chk.ob("S-spectral-state", s, "time loop: spectral state of rho/phi", ok,
                        "rho and phi are in the same representation at the start and at the end of an iteration" if ok else
                        f"representation changes across an iteration: {before} -> {st}", file=U.DRIVER, func="main")
+            elif isinstance(s, (ast.With, ast.Try)):
+                walk(s.body, st, depth)
+                for h in getattr(s, "handlers", []) or []:
+                    walk(h.body, dict(st), depth)
+                walk(getattr(s, "orelse", []) or [], st, depth)
+                walk(getattr(s, "finalbody", []) or [], st, depth)
             else:
-                calls = [c for c in ast.walk(s) if isinstance(c, ast.Call) and isinstance(c.func, ast.Attribute)]
+                calls = [c for c in ast.walk(s) if isinstance(c, ast.Call)]
                 calls.sort(key=lambda c: (c.end_lineno, c.end_col_offset))
                 for c in calls:
+                    if isinstance(c.func, ast.Name) and c.func.id in local_fns and depth < 4:
+                        # a local function of the driver: its statements run here (grids are the driver's own variables)
+                        h = local_fns[c.func.id]
+                        formal = [a.arg for a in h.args.args]
+                        ren = {f_: a_.id for f_, a_ in zip(formal, c.args) if isinstance(a_, ast.Name) and a_.id in st and f_ != a_.id}
+                        sub = dict(st)
+                        for f_, a_ in ren.items():
+                            sub[f_] = st[a_]
+                        walk(h.body, sub, depth + 1)
+                        for k_ in list(st):
+                            if k_ in ren.values():
+                                st[k_] = sub[[f_ for f_, a_ in ren.items() if a_ == k_][0]]
+                            elif k_ not in ren:
+                                st[k_] = sub[k_]
+                        continue
+                    if not isinstance(c.func, ast.Attribute):
+                        continue
                     m = c.func.attr
                     args = [a.id for a in c.args if isinstance(a, ast.Name)]
                     if m in ("getPerturbedRho", "getRho") and len(args) >= 2:
                         st[args[1]] = "real"
+                        kind[args[1]] = m
                     elif m == "getModes" and args:
-                        ok = st.get(args[0]) == "real"
+                        ok = judge(st.get(args[0]), "real")
                         chk.ob("S-spectral-state", c, src(c), ok, "the density is in real space when it is transformed" if ok else
                                f"getModes on a grid in state `{st.get(args[0])}`", file=U.DRIVER, func="main")
                         st[args[0]] = "modes"
                     elif m == "solveEquation" and len(args) >= 2 and src(c.func.value) == "QNSolver":
-                        ok = st.get(args[1]) == "modes"
+                        ok = judge(st.get(args[1]), "modes")
                         chk.ob("S-spectral-state", c, src(c), ok, "the right-hand side holds poloidal modes when the per-mode solve runs"
                                if ok else f"solveEquation with the density in state `{st.get(args[1])}`", file=U.DRIVER, func="main")
+                        if kind.get(args[1]) == "getRho":
+                            chk.ob("S-spectral-state", c, src(c) + " <- perturbed density", False,
+                                   f"the density handed to the quasi-neutrality solve was produced by getRho (the full density), not by "
+                                   "getPerturbedRho: the equilibrium part is not removed, so the potential of the unperturbed equilibrium "
+                                   "is not zero", file=U.DRIVER, func="main")
                         st[args[0]] = "modes"
                     elif m == "findPotential" and args:
-                        ok = st.get(args[0]) == "modes"
+                        ok = judge(st.get(args[0]), "modes")
                         chk.ob("S-spectral-state", c, src(c), ok, "the inverse transform is applied to solved modes" if ok else
                                f"findPotential on a potential in state `{st.get(args[0])}`", file=U.DRIVER, func="main")
                         st[args[0]] = "real"
                     elif m in uses_phi_real and "phi" in ([src(c.func.value)] + args):
-                        ok = st.get("phi") == "real"
+                        ok = judge(st.get("phi"), "real")
                         chk.ob("S-spectral-state", c, src(c)[:80], ok, "the potential is in real space where it is consumed" if ok else
                                f"`{m}` consumes the potential in state `{st.get('phi')}`", file=U.DRIVER, func="main")
+    kind = {}
     walk(fn.body, {"rho": "unset", "phi": "unset"})
 
 
 def run(chk):
     chk.explanation = (
-        "Transform pairing (fft/ifft of one module, along theta = last axis of the asserted layout, in place), mode numbers in "
-        "the transform's output order for even and odd counts and squared once, the quasi-neutrality coefficient functions as "
-        "rational functions of r compared with -(1/r + n0'/n0), -1/r^2, B^2/Te (adiabatic only), B^2/n0, boundary and m=0/chi "
-        "convention, per-mode book-keeping and index spaces of the mode tables, the driver's layout typestate and the "
-        "spectral typestate of rho/phi along the pipeline. Realness, zero potential at equilibrium and the fixed point are "
+        "Transform pairing (fft/ifft of a standard library, along theta = last axis of the asserted layout, line by line in place), "
+        "mode numbers evaluated against the transform's output order for even and odd counts and squared once, the quasi-neutrality "
+        "coefficient functions as rational functions of r compared with -(1/r + n0'/n0), -1/r^2, B^2/Te (adiabatic only), B^2/n0, "
+        "boundary and m=0/chi convention, the exact cancellation of the equilibrium in the perturbed density (f and f_eq through one "
+        "quadrature), per-mode book-keeping and index spaces of the mode tables, the driver's layout typestate and the spectral "
+        "typestate of rho/phi along the pipeline (local helper functions of the driver followed). Realness and the fixed point are "
         "numerical consequences and are not decided.")
-    chk.assumptions += ["scipy.fftpack.fft/ifft are mutually inverse in the mode order of np.fft.fftfreq"]
+    chk.assumptions += ["scipy.fftpack / scipy.fft / numpy.fft fft and ifft are mutually inverse in the mode order of np.fft.fftfreq",
+                        "get_perturbed_rho computes sum_l w_l (f - f_eq) (decided by C16)"]
     chk.in_file(U.POISSON)
     orders(chk)
     transforms(chk)
     mode_numbers(chk)
     qn_coefficients(chk)
+    equilibrium_cancellation(chk)
     per_mode(chk)
-    solver_index_spaces(chk)
-    driver_typestate(chk)
+    solver_index_spaces(ViewedCheck(chk))
+    driver_typestate(ViewedCheck(chk))
     spectral_typestate(chk)
     chk.floor("F5-", 14)
     chk.floor("S-spectral-state", 10)
